@@ -41,6 +41,16 @@ type polRow struct {
 	Unspec  bool   `json:"unspec"`
 	Base    string `json:"base"`
 	Ram     string `json:"ram"`
+	Nobase  bool   `json:"nobase"`
+	Epol    string `json:"epol"`
+}
+
+// endorsedPolicy: the guest policy the row's endorsement carries ("other": not the tool's default)
+func endorsedPolicy(r polRow) uint64 {
+	if r.Epol == "other" {
+		return ProdPolicy | 1<<23
+	}
+	return ProdPolicy
 }
 type polOut struct {
 	Err       string `json:"err"`
@@ -61,11 +71,11 @@ func sevBase(r polRow) *cpb.Policy {
 		FamilyId: bytes.Repeat([]byte{0xaa}, 16), ImageId: bytes.Repeat([]byte{0xbb}, 16), RequireIdBlock: r.Bid, RequireAuthorKey: r.Bauth, Product: nil}
 	switch r.Bpolicy {
 	case "same":
-		p.Policy = ProdPolicy
+		p.Policy = endorsedPolicy(r)
 	case "diff":
-		p.Policy = ProdPolicy ^ (1 << 19) // debug allowed
+		p.Policy = endorsedPolicy(r) ^ (1 << 19) // debug allowed
 	case "stricter":
-		p.Policy = ProdPolicy &^ (1 << 16) // SMT not allowed: a bitwise subset of the endorsed policy
+		p.Policy = endorsedPolicy(r) &^ (1 << 16) // SMT not allowed: a bitwise subset of the endorsed policy
 	}
 	switch r.Bmeas {
 	case "same":
@@ -117,9 +127,16 @@ func runPolicy(m *Material, r polRow) (problems []string, gotErr string, matches
 		case "garbage":
 			bundle = []byte("this is not PEM")
 		}
-		gs := GoldenSpec{Snp: map[uint32][]byte{2: Meas("p2")}, Svn: 5, Digest: Meas("fw"), Timestamp: time.Date(2025, 2, 1, 0, 0, 0, 0, time.UTC), ClSpec: 1, Cert: m.SignCert.Raw, CaBundle: bundle}
+		gs := GoldenSpec{Snp: map[uint32][]byte{2: Meas("p2")}, Svn: 5, Digest: Meas("fw"), Timestamp: time.Date(2025, 2, 1, 0, 0, 0, 0, time.UTC), ClSpec: 1, Cert: m.SignCert.Raw, CaBundle: bundle, Policy: endorsedPolicy(r)}
 		e := Endorse(gs.Proto(), m.S)
+		endoPol := endorsedPolicy(r)
 		base := sevBase(r)
+		callBase := base
+		if r.Nobase {
+			// the caller gives no base at all: what the result is compared with is a policy with nothing set
+			// (and the minimum version the library fills in)
+			base, callBase = &cpb.Policy{MinimumVersion: "0.0"}, nil
+		}
 		// a base that already trusts keys may trust the endorsement's certificates in the other role
 		if r.Bid {
 			base.TrustedIdKeys = append(base.TrustedIdKeys, m.ForeignCert.Raw)
@@ -129,14 +146,14 @@ func runPolicy(m *Material, r polRow) (problems []string, gotErr string, matches
 		}
 		snap := proto.Clone(base).(*cpb.Policy)
 		count := map[string]uint32{"listed": 2, "unlisted": 8, "zero": 0}[r.Count]
-		out, err := gtb.SevPolicy(ctx, e, &gtb.SevPolicyOptions{Base: base, LaunchVmsas: count, Overwrite: r.Ow, AllowUnspecifiedVmsas: r.Unspec})
+		out, err := gtb.SevPolicy(ctx, e, &gtb.SevPolicyOptions{Base: callBase, LaunchVmsas: count, Overwrite: r.Ow, AllowUnspecifiedVmsas: r.Unspec})
 		if !proto.Equal(base, snap) {
 			problems = append(problems, "base-mutated: the caller's base policy changed")
 		}
 		if err != nil {
 			return problems, err.Error(), func(o polOut) bool { return o.Err != "" }
 		}
-		if out == base {
+		if out == callBase {
 			problems = append(problems, "base-mutated: the result is the caller's base object, not a new policy")
 		}
 		endoMeas := Meas("p2")
@@ -154,10 +171,10 @@ func runPolicy(m *Material, r polRow) (problems []string, gotErr string, matches
 				problems = append(problems, "weakened: endorsement SVN below the base minimum accepted without overwrite")
 			}
 		}
-		if base.Policy == 0 && out.Policy != ProdPolicy {
+		if base.Policy == 0 && out.Policy != endoPol {
 			problems = append(problems, fmt.Sprintf("not-from-endorsement: the base names no guest policy, so the result's is the endorsement's; it is %#x", out.Policy))
 		}
-		if out.Policy != base.Policy && out.Policy != ProdPolicy {
+		if out.Policy != base.Policy && out.Policy != endoPol {
 			problems = append(problems, "not-from-endorsement: guest policy is neither the base's nor the endorsement's")
 		}
 		if !bytes.Equal(out.Measurement, base.Measurement) && !(count == 2 && bytes.Equal(out.Measurement, endoMeas)) {
@@ -190,7 +207,7 @@ func runPolicy(m *Material, r polRow) (problems []string, gotErr string, matches
 			}
 			wp := base.Policy
 			if o.Policy == "endo" {
-				wp = ProdPolicy
+				wp = endoPol
 			}
 			wm := base.Measurement
 			if o.Meas == "endo" {
@@ -289,6 +306,10 @@ func sameList(a, b [][]byte) bool {
 func RunC17(run *vk.Run) {
 	run.Assumptions = append(run.Assumptions, "base fields are classified unset / equal to / different from the endorsement's value; one representative unrelated field per kind",
 		"with overwrite the code keeps a non-zero base guest policy; the statement constrains only runs without overwrite, so this is transcribed, not judged")
+	if _, err := vk.RunTLC(vk.TLCOpts{Module: "Policy", Config: "Neg_Policy_nobase.cfg", Timeout: 5 * time.Minute, ExpectViolation: true}); err != nil {
+		run.Infra(err)
+		return
+	}
 	em, err := vk.RunTLC(vk.TLCOpts{Module: "Policy", Config: "Emit_Policy.cfg", Workers: 1, Timeout: 10 * time.Minute})
 	if err != nil {
 		run.Infra(err)
@@ -527,7 +548,7 @@ func RunC17(run *vk.Run) {
 		run.Extra["race_reports_in_repository"] = n
 	}
 	run.Exhaustive = true
-	run.Rule = "every row of Policy.tla (SEV: guest policy / measurement / minimum SVN each unset-same-different, existing id/author keys, 8 CA-bundle shapes (incl. one certificate as both ID and author key), listed/unlisted/zero count, overwrite, allow-unspecified; TDX: 5 base shapes x RAM listed/unlisted/zero x overwrite) is executed on the real SevPolicy/TdxPolicy (bases that trust keys also trust the endorsement's certificates in the other role); the base is compared with a deep copy taken before the call and the result field by field with base and endorsement; `sev policy` / `tdx policy --base FILE` must give what the library gives for the base in FILE, unknown fields included"
+	run.Rule = "every row of Policy.tla (SEV: guest policy / measurement / minimum SVN each unset-same-different, existing id/author keys, no base policy at all, two endorsed guest policies (the tool's default and another value), 8 CA-bundle shapes (incl. one certificate as both ID and author key), listed/unlisted/zero count, overwrite, allow-unspecified; TDX: 5 base shapes x RAM listed/unlisted/zero x overwrite) is executed on the real SevPolicy/TdxPolicy (bases that trust keys also trust the endorsement's certificates in the other role); the base is compared with a deep copy taken before the call and the result field by field with base and endorsement; `sev policy` / `tdx policy --base FILE` must give what the library gives for the base in FILE, unknown fields included"
 }
 
 // PolicyRace derives policies concurrently from one shared base (body of the -race build).
